@@ -60,6 +60,7 @@ MODELLED_FUNCS = {
     'sugar/_io/tab/core.py': ['_headers_from_fmtstrings', 'read_tabular'],
     'sugar/core/seq.py': ['BioSeq.write', 'BioSeq.tofmtstr', 'BioBasket.write', 'BioBasket.tofmtstr', 'BioBasket.fromfmtstr'],
     'sugar/core/fts.py': ['Feature.write', 'FeatureList.write', 'FeatureList.tofmtstr'],
+    'sugar/scripts.py': ['convert', 'convertf'],
 }
 WHAT = {'seqs': 0, 'fts': 1}
 ENTRIES = {'write': 'EWrite', 'tofmtstr': 'ETofmtstr', 'objwrite': 'EObjWrite', 'objtofmtstr': 'EObjTofmtstr'}
@@ -670,6 +671,57 @@ def r_history(rng):
             steps.append({'op': 'archive', 'w': w, 'arch': rng.choice(['zip', 'gztar', 'tar'])})
     return {'kind': 'hist', 'texts': texts, 'handles': handles, 'steps': steps}
 
+
+# ----------------------------------------------------------------------------- command-line converter cases
+
+CLI_STEMS = ['out', 'o.v2', 'dir.d/out', '.hidden', 'a b', 'dir.d/x.y.z', 'out.fasta']
+
+
+def _decl_exts(what):
+    import sugar._io.util as U
+    suf = '' if what == 'seqs' else '_fts'
+    out = []
+    for fmt in U.FMTS_ALL[what]:
+        out += list(getattr(U.EPS[what][fmt].load(), 'filename_extensions%s_%s' % (suf, fmt), []))
+    return out
+
+
+def r_cli_case(rng):
+    """One call of `sugar convert` / `sugar convertf` on a real file: source content x -f x -o x -fo."""
+    import sugar._io.util as U
+    r = rng.random()
+    if r < 0.55:
+        w = r_writer_case(rng)
+        w.pop('kw', None)
+        content, what, true, nobj = write_content(w), w['what'], w['fmt'], len(w['obj'])
+    elif r < 0.85:
+        what = rng.choice(['seqs', 'fts', 'fts'])
+        kind = 'genbank' if what == 'seqs' else rng.choice([k for k in SYNTH if k not in ('blast6low', 'blast10')])
+        content, true, nobj = synth(rng, kind), SYNTH_FMT[kind], 1
+    elif r < 0.93:
+        content, what, true, nobj = rng.choice(['xyz\n', 'no format here\n', '12 34\n']), rng.choice(['seqs', 'fts']), None, 0
+    else:
+        content, what, true, nobj = '##gff-version 3\n', rng.choice(['seqs', 'fts']), 'gff', 0      # a file that holds nothing
+    names = list(U.FMTS_ALL[what])
+    if true is None:
+        fmt = rng.choice([None, None, 'nonsense'])
+    elif nobj == 0:
+        fmt = rng.choice([None, None, ''])
+    else:
+        fmt = rng.choice([None, None, None, None, true, true, true.upper(), true.capitalize(), rng.choice(['nonsense', '', true + ' '])])
+    if nobj == 0 and true is not None:
+        out, fmtout = None, rng.choice([None, ''])
+    else:
+        out = None
+        if rng.random() < 0.6:
+            ext = rng.choice(_decl_exts(what) + _decl_exts(what) + ['txt', 'FASTA', 'gb', 'fasta.bak', 'tab', 'Gff'])
+            out = rng.choice(CLI_STEMS) + rng.choice(['.', '.', '.', '']) + ext
+        wr = [n for n in names if n in ('fasta', 'stockholm', 'gff', 'sjson', 'tsv', 'csv')]
+        fmtout = rng.choice([None, None, None, None, rng.choice(wr), rng.choice(wr), rng.choice(wr).upper(), rng.choice(names).capitalize(),
+                             rng.choice(['nonsense', '', 'genbank'])])
+    return {'kind': 'cli', 'what': what, 'content': content, 'true': true, 'nobj': nobj, 'fmt': fmt, 'out': out, 'fmtout': fmtout,
+            'abs': rng.random() < 0.3}
+
 # ----------------------------------------------------------------------------- case generation
 
 HKINDS = ['bytes', 'str', 'fileb', 'filet', 'path', 'Path']
@@ -821,6 +873,9 @@ def gen_cases(rng, tier):
         junk = rng.choice(['', '', 'JUNK\n', '>x\n'])
         cases.append({'kind': 'plan', 'what': what, 'content': junk + content, 'offset': len(junk), 'h': rng.choice(['bytes', 'str']), 'sep': sep,
                       'fmt': rng.choice([None, None, fmt, fmt.upper() if fmt else None])})
+    # --- the command-line converter on real files
+    for _ in range(1500 if thorough else 170):
+        cases.append(r_cli_case(rng))
     # --- a binary third-party plugin in front of the chain is skipped for text handles
     for _ in range(300 if thorough else 40):
         content = rng.choice([synth(rng, rng.choice(SYNTH)), r_adversarial(rng), 'ATG' + r_adversarial(rng), write_content(r_writer_case(rng))])
@@ -1246,8 +1301,83 @@ def impl_plan(case):
     return [used, case['offset'] if _cj(objs) == _cj(ref) else -1]
 
 
+
+def impl_cli(case):
+    """sugar.scripts.cli(['convert'|'convertf', <file>, -f, -o, -fo]) in a private directory (cwd, stdin, stdout isolated)."""
+    import sugar
+    from sugar.scripts import cli
+    from unittest import mock
+    what = case['what']
+    cmd = 'convert' if what == 'seqs' else 'convertf'
+    rd_name = 'read' if what == 'seqs' else 'read_fts'
+    real_rd = getattr(sugar, rd_name)
+    d = tempfile.mkdtemp(prefix='C03-cli-', dir='/tmp')
+    cwd0 = os.getcwd()
+    try:
+        os.makedirs(os.path.join(d, 'in'))
+        work = os.path.join(d, 'work')
+        os.makedirs(os.path.join(work, 'dir.d'))
+        inp = os.path.join(d, 'in', 'input.dat')
+        with open(inp, 'wb') as f:
+            f.write(case['content'].encode('latin-1'))
+        args = [cmd, inp]
+        if case['fmt'] is not None:
+            args += ['-f', case['fmt']]
+        out = case['out']
+        if out is not None:
+            args += ['-o', os.path.join(work, out) if case.get('abs') else out]
+        if case['fmtout'] is not None:
+            args += ['-fo', case['fmtout']]
+        frs = []
+
+        def rec(*a, **k):
+            r = real_rd(*a, **k)
+            frs.append(sorted(set(o.meta._fmt for o in r)))
+            return r
+        buf = io.StringIO()
+        os.chdir(work)
+        try:
+            with mock.patch.object(sugar, rd_name, rec), mock.patch.object(sys, 'stdin', io.StringIO('')), contextlib.redirect_stdout(buf):
+                try:
+                    cli(args)
+                except SystemExit as e:
+                    return 'FAIL: SystemExit %r' % (e.code,)
+        finally:
+            os.chdir(cwd0)
+        made = sorted(os.path.relpath(os.path.join(r_, x), work) for r_, _, fs in os.walk(work) for x in fs)
+        assert os.listdir(os.path.join(d, 'in')) == ['input.dat'], 'files created next to the input'
+        assert len(frs) == 1 and len(frs[0]) == 1, 'read called %d times / formats %r' % (len(frs), frs)
+        fr = frs[0][0]
+        text = buf.getvalue()
+        if out is None:
+            assert not made, 'files created without -o: %r' % made
+            assert text.endswith('\n'), 'stdout does not end with a newline'
+            body = text[:-1]
+        else:
+            assert text == '', 'output on stdout although -o was given'
+            assert made == [os.path.normpath(out)], 'created %r, -o was %r' % (made, out)
+            with open(os.path.join(work, out), 'rb') as f:
+                body = f.read().decode('latin-1')
+        # which format is the output in: compare with what the library writes for the library's reading of the same file
+        hits = []
+        for fw in sugar._io.util.FMTS_ALL[what]:
+            try:
+                ref = real_rd(inp, fr).tofmtstr(fw)
+            except Exception:
+                continue
+            if ref == body:
+                hits.append(fw)
+        assert len(hits) == 1, 'the output equals the library output of %d formats %r' % (len(hits), hits)
+        return ['stdout', fr, hits[0]] if out is None else ['file', out, fr, hits[0]]
+    finally:
+        os.chdir(cwd0)
+        shutil.rmtree(d, ignore_errors=True)
+
+
 def impl(case):
     k = case['kind']
+    if k == 'cli':
+        return impl_cli(case)
     if k == 'detect':
         if case.get('w') and _pristine(case):
             # the content in the case must be what the writer produces now
@@ -1344,6 +1474,9 @@ def model_term(case):
         if fmt == 'infernal':
             return 'out (run_C03_render_infernal %s %s %s)' % (coq_bs(case['l0']), coq_bs(case['l1']), coq_list([coq_bs(x) for x in case['lines']]))
         return 'out (run_C03_render_hits %s %s)' % ('x%02x' % ord(case['sep']), rows_t(case['rows']))
+    if k == 'cli':
+        return 'out (run_C03_cli %s %s %s %s %s %s)' % (coq_N(WHAT[case['what']]), coq_opt(case['true'], coq_bs), coq_nat(case['nobj']),
+                                                       coq_opt(case['fmt'], coq_bs), coq_opt(case['out'], coq_bs), coq_opt(case['fmtout'], coq_bs))
     if k in ('writerfail', 'transport'):
         return 'out (VL [VB true; VNone])'
     raise ValueError(k)
@@ -1364,6 +1497,16 @@ def agree(case, implval, modelval):
 
 
 # ----------------------------------------------------------------------------- property-level oracle (independent of the model)
+
+def _ext_table(what, fname):
+    """first principles: the text after the last dot of the last path component decides"""
+    name = fname.rsplit('/', 1)[-1]
+    ext = name.rsplit('.', 1)[1] if '.' in name.lstrip('.') else None
+    table = {'seqs': {'fasta': 'fasta', 'fa': 'fasta', 'stk': 'stockholm', 'sto': 'stockholm', 'stockholm': 'stockholm',
+                      'gff': 'gff', 'sjson': 'sjson', 'json': 'sjson'},
+             'fts': {'gff': 'gff', 'tsv': 'tsv', 'csv': 'csv'}}[what]
+    return table.get(ext)
+
 
 def spec(case, got):
     k = case['kind']
@@ -1405,16 +1548,37 @@ def spec(case, got):
                 return 'step %d (%s) answers %r, the same call answered %r before' % (i, st['op'], r, seen[key])
             seen[key] = r
         return None
+    if k == 'cli':
+        if isinstance(got, str):
+            return got
+        if isinstance(got, dict):
+            # a conversion that names only formats sugar can read / write, from a file that holds something, must not fail
+            rdable = {'seqs': ['fasta', 'genbank', 'stockholm', 'gff', 'sjson'], 'fts': ['gff', 'genbank', 'infernal', 'mmseqs', 'blast', 'tsv', 'csv']}[case['what']]
+            wrable = {'seqs': ['fasta', 'stockholm', 'gff', 'sjson'], 'fts': ['gff', 'tsv', 'csv']}[case['what']]
+            f, fo, out = case['fmt'], case['fmtout'], case['out']
+            wfmt = (fo or '').lower() or (_ext_table(case['what'], out) if out else ((f or '').lower() or case['true']))
+            if case['nobj'] and case['true'] and (f is None or f.lower() == case['true']) and (fo is None or fo.lower() in wrable) and wfmt in wrable:
+                return 'conversion %s -> %s raised %s' % (case['true'], wfmt, got['e'])
+            return None
+        # "read in the -f format else the detected one; write in the -fo format, else the one the extension of -o declares, else
+        # the input format; to stdout without -o"
+        fr, fw = got[-2], got[-1]
+        f, fo, out = case['fmt'], case['fmtout'], case['out']
+        exp_r = f.lower() if f else case['true']
+        exp_w = fo.lower() if fo else (_ext_table(case['what'], out) if out else exp_r)
+        if fr != exp_r:
+            return 'input read as %r, expected %r' % (fr, exp_r)
+        if fw != exp_w:
+            return 'output written as %r, expected %r' % (fw, exp_w)
+        if (got[0] == 'stdout') != (out is None):
+            return 'output went to %s' % got[0]
+        return None
     if k == 'ext':
         # first principles: the text after the last dot of the last path component decides
-        name = case['fname'].rsplit('/', 1)[-1]
-        ext = name.rsplit('.', 1)[1] if '.' in name.lstrip('.') else None
-        table = {'seqs': {'fasta': 'fasta', 'fa': 'fasta', 'stk': 'stockholm', 'sto': 'stockholm', 'stockholm': 'stockholm',
-                          'gff': 'gff', 'sjson': 'sjson', 'json': 'sjson'},
-                 'fts': {'gff': 'gff', 'tsv': 'tsv', 'csv': 'csv'}}[case['what']]
-        exp = table.get(ext)
+        exp = _ext_table(case['what'], case['fname'])
+        ext = None
         if got != exp:
-            return 'extension %r should select %r, got %r' % (ext, exp, got)
+            return 'extension of %r should select %r, got %r' % (case['fname'], exp, got)
         return None
     if k == 'resolve' and case['ft'] in ('str', 'Path') and case['name']:
         # first principles: a plain local file name with an extension shutil.unpack_archive knows is unpacked as an archive
@@ -1461,6 +1625,9 @@ def nontrivial(case, got):
         return 'plan:%s:%s' % (case['fmt'], got[0] if isinstance(got, list) else 'exc')
     if k == 'render':
         return 'render:%s:%s' % (case['fmt'], 'long' if isinstance(got, str) and len(got) > 1000 else 'short')
+    if k == 'cli':
+        return 'cli:%s:%s:%s:%s' % (case['what'], 'f' if case['fmt'] is not None else '-', 'fo' if case['fmtout'] is not None else '-',
+                                    '/'.join(map(str, got[:1] + got[-2:])) if isinstance(got, list) else got.get('e') if isinstance(got, dict) else 'fail')
     if k == 'kw':
         return 'kw' if any(a in ('mode', 'tool', 'encoding', 'archive', 'fname', 'fmt') for a, _ in case['kw']) else None
     return None
@@ -1485,6 +1652,8 @@ def histkey(case, got):
         keys.append('wresolve->%s' % (got[0] if isinstance(got, list) and got else 'exc'))
     elif k == 'kw':
         keys.append('entry=' + case['entry'])
+    elif k == 'cli':
+        keys.append('cli->%s' % (got[0] if isinstance(got, list) else got.get('e') if isinstance(got, dict) else 'fail'))
     return keys
 
 
@@ -1500,6 +1669,11 @@ def python_snippet(case):
                 % (mk, case['offset'], case['what'], kw))
     if k == 'ext':
         return 'from sugar._io import detect_ext; print(detect_ext(%r, %r))' % (case['fname'], case['what'])
+    if k == 'cli':
+        args = (['-f', case['fmt']] if case['fmt'] is not None else []) + (['-o', case['out']] if case['out'] is not None else []) + \
+               (['-fo', case['fmtout']] if case['fmtout'] is not None else [])
+        return ('import os; from sugar.scripts import cli; open("input.dat", "w").write(%r); os.makedirs("dir.d", exist_ok=True); '
+                'cli([%r, "input.dat"] + %r)' % (case['content'], 'convert' if case['what'] == 'seqs' else 'convertf', args))
     if k == 'kw':
         return ('# keyword options through %s (%s): %r -- see tools/props/c03.py:impl_kw for the recording plugin'
                 % (case['entry'], case['what'], case['kw']))
@@ -1748,7 +1922,7 @@ def extra_checks(rng, tier, cov):
     cov['transport_note'] = 'transport independence is relational testing only (partial)'
 
 
-LEVEL_TEXT = ('Machine-checked Coq theorems (31, no axioms) over an executable model of sugar._io: detect() restores the position of any '
+LEVEL_TEXT = ('Machine-checked Coq theorems (39, no axioms) over an executable model of sugar._io and of the command-line converter: detect() restores the position of any '
               'handle and equals "first accepting sniffer of the regenerated FMTS_ALL chain" on the remaining content for text and '
               'binary handles; WHOLE-CHAIN detection soundness detect(render_d x) = d, with rejection lemmas for every earlier sniffer, '
               'for FASTA / Stockholm / GFF3 (writer models), SJSON / GenBank (first-line shapes), TSV / CSV of any length incl. beyond '
@@ -1759,7 +1933,13 @@ LEVEL_TEXT = ('Machine-checked Coq theorems (31, no axioms) over an executable m
               'equals a declarative table, fmt= wins, writing by extension selects the declared format also for Path and archives; '
               'reading with fmt omitted hands the same handle state and options to the same plugin as reading with the detected fmt '
               'given, and fails exactly when nothing is detected; keyword options reach the plugin unchanged and identically through '
-              'write, tofmtstr and the object methods; the _resolve_fname decision (glob > archive > gzip > plain) is specified. Model '
+              'write, tofmtstr and the object methods; the _resolve_fname decision (glob > archive > gzip > plain) is specified.  Round 7: the '
+              'command-line converter (sugar convert / convertf) equals the decision table "read in the -f format else the detected one; '
+              'write in the -fo format, else the one the extension of -o declares, else the -f / input format; to stdout without -o" with '
+              'its error rows KeyError / OSError / RuntimeError / IndexError (cli_decision_table, cli_fmtout_wins, cli_by_extension, '
+              'cli_default_is_input_format, cli_fmt_is_output_format, cli_read_format, cli_errors, cli_case_insensitive), tied to '
+              'sugar.scripts.cli on real files in a private directory (cli stream: which file is created, what goes to stdout, in which '
+              'format, error class). Model '
               'and code are tied on every run by differential testing of every modelled function (all reachable statements executed in '
               'the quick tier), renderer models against the real writers / readers, and histories of calls on shared state. Transport '
               'independence is relational testing only.')
@@ -1775,5 +1955,8 @@ LEVEL_NOTE = ('PARTIAL / TESTED ONLY: (1) transport independence (path, Path, ha
               'Domain: printable ASCII + tab + newline contents, sep absent or one character, non-empty collections, outfmt 10 with '
               'sep=",". URL download branch exercised with a stubbed requests.get only. Statement coverage of the modelled functions: only '
               'def/decorator lines (executed at import) are never hit; main.py:67 is reached with a stub binary plugin; '
-              'sugar/_io/tab/core.py is modelled but not an anchored file. All theorems closed under the global context (no axioms).')
+              'sugar/_io/tab/core.py is modelled but not an anchored file; scripts.py: the two `except BrokenPipeError: pass` lines of '
+              'convert / convertf are not reached. (6) the command-line model takes the detected input format and the number of objects '
+              'in the file as inputs (tied by the detect streams); which plugin functions exist (read_/iter_/write_/append_) comes from '
+              'the regenerated SUPPORT tables; -f naming a format the file is not in is outside the domain. All theorems closed under the global context (no axioms).')
 TECHNIQUE = 'Coq proof over an executable model + regenerated tables + differential correspondence + relational transport testing'
